@@ -447,6 +447,10 @@ func typeRef(t *ast.Type) *TypeRefJ {
 	return &TypeRefJ{Name: t.NamedType, Elem: typeRef(t.Elem), NonNull: t.NonNull}
 }
 
+// Implementors, when set by the generated server's main, holds the `<type>Implementors` lists of the
+// generated code itself; SchemaToJSON hands those to the model instead of recomputing them.
+var Implementors map[string][]string
+
 func SchemaToJSON(s *ast.Schema) SchemaJSON {
 	out := SchemaJSON{Query: s.Query.Name}
 	if s.Mutation != nil {
@@ -481,6 +485,9 @@ func SchemaToJSON(s *ast.Schema) SchemaJSON {
 			t.Implementors = append(t.Implementors, d.Name)
 			for _, i := range s.GetImplements(d) {
 				t.Implementors = append(t.Implementors, i.Name)
+			}
+			if gen, ok := Implementors[d.Name]; ok {
+				t.Implementors = append([]string{}, gen...) // from the generated code
 			}
 		}
 		out.Types = append(out.Types, t)
